@@ -180,3 +180,67 @@ func c16KeyFollowsRawKey(p *Prog, r *Result) {
 		r.fail("%s: the cached key is decoded from a receiver field that is never filled in ReadChunk", rule)
 	}
 }
+
+// c16YieldTargetFollowsMessages: the device yields, when no more owner message
+// is queued, to the module named by a loop-carried variable. That variable must
+// be replaced by the module of the message just received on every way round
+// the receive loop; an iteration that leaves it unchanged (e.g. the automatic
+// handling of "active") makes the device yield to a stale module, so the data a
+// freshly addressed module produces from Yield never reaches the owner.
+func c16YieldTargetFollowsMessages(p *Prog, r *Result, f *Flow) {
+	rule := "C16.yield-target-follows-messages"
+	r.rule(rule, "the loop-carried module name that selects the module to yield to is, on every back edge of the loop that receives owner messages, the module name parsed from the message received in that iteration (never the unchanged previous value)")
+	r.floor(rule, 1)
+	n := 0
+	for _, fn := range f.Order {
+		if funcPkgPath(fn) != modulePath {
+			continue
+		}
+		recv := false
+		for _, b := range fn.Blocks {
+			for _, in := range b.Instrs {
+				if c, ok := in.(ssa.CallInstruction); ok && p.calleeOf(c.Common()).Name == "fdo/serviceinfo.UnchunkReader.NextServiceInfo" {
+					recv = true
+				}
+			}
+		}
+		if !recv {
+			continue
+		}
+		m := f.matcherFor(fn)
+		for _, b := range fn.Blocks {
+			for _, in := range b.Instrs {
+				phi, ok := in.(*ssa.Phi)
+				if !ok || !isString(phi.Type()) {
+					continue
+				}
+				// selects the yield target: handed to a callee that reaches DeviceModule.Yield
+				selects := false
+				for _, ref := range *phi.Referrers() {
+					if c, ok := ref.(ssa.CallInstruction); ok {
+						if g := p.body(c.Common().StaticCallee()); g != nil && callsNamed(p, g, "fdo/serviceinfo.DeviceModule.Yield") {
+							selects = true
+						}
+					}
+				}
+				if !selects {
+					continue
+				}
+				for i, e := range phi.Edges {
+					if !b.Dominates(b.Preds[i]) {
+						continue // not a back edge
+					}
+					n++
+					okv := e != ssa.Value(phi) && m.Prov(e).HasX("call:fdo/serviceinfo.UnchunkReader.NextServiceInfo")
+					r.table(p, rule, fmt.Sprintf("back edge #%d of the yield-target variable in %s", n, p.FuncName(fn)), p.instrPos(b.Preds[i].Instrs[len(b.Preds[i].Instrs)-1]), okv,
+						fmt.Sprintf("value on this edge: unchanged=%v, derives from the received message=%v", e == ssa.Value(phi), m.Prov(e).HasX("call:fdo/serviceinfo.UnchunkReader.NextServiceInfo")))
+				}
+			}
+		}
+	}
+}
+
+func isString(t types.Type) bool {
+	b, ok := types.Unalias(t).Underlying().(*types.Basic)
+	return ok && b.Kind() == types.String
+}
